@@ -281,7 +281,7 @@ def run(ctx: lib.Ctx) -> None:
         cases.append(('pairing', 'PAIRING_CHECK', [('pairs', [((a % R, cv.enc1(a)), (b % R, cv.enc2(b))) for a, b in pc])]))
 
     # ---- run the implementation
-    coq_cases, meta, direct_bad = [], [], []
+    coq_cases, meta, direct_bad, lenient_cases = [], [], [], []
     need1, need2 = set(), set()
     reported = 0
 
@@ -321,6 +321,10 @@ def run(ctx: lib.Ctx) -> None:
                 for a, b in o[1]:
                     need1.add(a[0])
                     need2.add(b[0])
+        if op == 'INT' and args and args[0][0] in ('g1', 'g2'):
+            # INT on a point is accepted only because G1/G2Type subclass BytesType: outside the property, compared for the record
+            lenient_cases.append((f'({OPC[op]}, {clist(ops)})', coq_out(obs)))
+            continue
         coq_cases.append((f'({OPC[op]}, {clist(ops)})', coq_out(obs)))
         meta.append((kind, op, args, text, obs))
         # ---- (B) expected result from the discrete logs / field arithmetic
@@ -436,6 +440,9 @@ def run(ctx: lib.Ctx) -> None:
                'match operand x, operands r with Ok v, Ok vs => Ok (v :: vs) | _, _ => Reject end end.\n'
                'Definition runc (c : bop * list (frlit + bval)) : result bval := match operands (snd c) with Ok st => texec tab1 tab2 (fst c) st | Reject => Reject end.\n')
     bad = ctx.coq_mismatches('bls', IMPORTS, 'runc', 'bres_eqb', 'bop * list (frlit + bval)', 'result bval', coq_cases, shard=200, prelude=prelude)
+    lbad = ctx.coq_mismatches('lenient', IMPORTS, 'runc', 'bres_eqb', 'bop * list (frlit + bval)', 'result bval', lenient_cases, prelude=prelude)
+    ctx.extra['lenient_acceptances'] = {'cases': len(lenient_cases), 'differ_from_model': len(lbad),
+                                        'note': 'INT on g1/g2 values: outside the reference typing, not part of the verdict'}
     # Fr codec: to_bytes(32, little) of every Fr result, evaluated by the model
     frs = sorted({m[4][1][1:] for m in meta if m[4][0] == 'ok' and m[4][1][0] == 'fr'})
     codec_cases = [(cZ(z), f'(Ok {cB(b)})') for z, b in frs]
